@@ -93,9 +93,12 @@ def upper_bound(t, facts=None):
 
 
 def is_fraction(x):
-    """x - floor(x): in [0, 1)"""
-    return isinstance(x, tuple) and x and x[0] == 'bin' and x[1] == 'Sub' and \
-        x[3] == ('app', 'floor', (x[2],))
+    """x - floor(x) (in [0, 1)) or x.fract() (in (-1, 1)): strictly below 1 - only used for upper bounds"""
+    if not (isinstance(x, tuple) and x):
+        return False
+    if x[0] == 'app' and x[1] == 'fract' and len(x[2]) == 1:
+        return True
+    return x[0] == 'bin' and x[1] == 'Sub' and x[3] == ('app', 'floor', (x[2],))
 
 
 # ---------------------------------------------------------------------------
